@@ -141,8 +141,9 @@ def _run_in_optimized_child(args):
             json.dump({"prop": prop_name, "spec": spec, "seed": seed, "tier": tier}, f, default=_json_default)
         here = os.path.dirname(os.path.dirname(os.path.abspath(__file__)))
         code = "import sys; sys.path.insert(0, %r); from vlib import runner; runner._optimized_child_main(%r)" % (here, d)
-        p = subprocess.run([sys.executable, "-O", "-c", code], env=dict(os.environ, PYTHONOPTIMIZE="1", PYTHONDONTWRITEBYTECODE="1"),
-                           capture_output=True, text=True)
+        env = dict(os.environ, PYTHONOPTIMIZE="1", PYTHONDONTWRITEBYTECODE="1")
+        env.update(spec.get("_env") or {})    # further facts of the process environment a shard wants varied (e.g. the locale)
+        p = subprocess.run([sys.executable, "-O", "-c", code], env=env, capture_output=True, text=True)
         out = os.path.join(d, "out.json")
         if not os.path.exists(out):
             raise HarnessError("the -O child of shard %r produced no result (exit %s): %s" % (spec, p.returncode, p.stderr[-800:]))
@@ -184,6 +185,8 @@ def _worker(args):
             for v in res.violations:
                 if isinstance(v.get("case"), dict):
                     v["case"]["_py_optimize"] = True
+                    if spec.get("_env"):
+                        v["case"]["_env"] = spec["_env"]
                 v["msg"] = str(v.get("msg")) + " [interpreter started with -O]"
         d = res.to_dict()
     except HarnessError as e:
@@ -243,7 +246,7 @@ def run_property(prop_name, tier, replay_path=None, jobs=None):
         case = doc.get("case", doc)
         if isinstance(case, dict) and case.get("_py_optimize") and not sys.flags.optimize:
             # the case was found in an interpreter started with -O: replay it in one
-            os.execve(sys.executable, [sys.executable] + sys.argv, dict(os.environ, PYTHONOPTIMIZE="1"))
+            os.execve(sys.executable, [sys.executable] + sys.argv, dict(os.environ, PYTHONOPTIMIZE="1", **(case.get("_env") or {})))
         msg = mod.replay(case)
         if msg:
             print("replay: property %s VIOLATED on %s: %s" % (prop_id, replay_path, msg))
